@@ -44,4 +44,108 @@ theorem sem_conj (fs : List Formula) (ρ : FEnv) (σ : Asg) :
   | nil => simp [Sem]
   | cons f fs ih => simp [Sem, BinOp.sem, ih]
 
+/-! ### counting over `f 0 … f (m-1)` -/
+
+theorem trueCount_append (l₁ l₂ : List Nat) (σ : Asg) :
+    trueCount (l₁ ++ l₂) σ = trueCount l₁ σ + trueCount l₂ σ := by
+  simp [trueCount]
+
+theorem trueCount_range_succ (m : Nat) (f : Nat → Nat) (σ : Asg) :
+    trueCount ((List.range (m + 1)).map f) σ =
+      trueCount ((List.range m).map f) σ + (if σ (f m) then 1 else 0) := by
+  rw [List.range_succ, List.map_append, trueCount_append]
+  congr 1
+  simp only [trueCount, List.map_cons, List.map_nil, List.filter_cons, List.filter_nil]
+  split <;> rfl
+
+theorem trueCount_range_zero_iff (m : Nat) (f : Nat → Nat) (σ : Asg) :
+    trueCount ((List.range m).map f) σ = 0 ↔ ∀ a, a < m → σ (f a) = false := by
+  induction m with
+  | zero => simp [trueCount]
+  | succ m ih =>
+    rw [trueCount_range_succ]
+    constructor
+    · intro h a ha
+      have h1 : trueCount ((List.range m).map f) σ = 0 := by omega
+      by_cases ham : a = m
+      · subst ham
+        cases hσ : σ (f a) with
+        | false => rfl
+        | true => simp [hσ] at h
+      · exact (ih.mp h1) a (by omega)
+    · intro h
+      have h1 := ih.mpr (fun a ha => h a (by omega))
+      have h2 := h m (by omega)
+      simp [h1, h2]
+
+/-- at most one of `f 0 … f (m-1)` is true iff no two positions are both true -/
+theorem trueCount_range_le_one (m : Nat) (f : Nat → Nat) (σ : Asg) :
+    trueCount ((List.range m).map f) σ ≤ 1 ↔
+      ∀ a b, a < b → b < m → ¬ (σ (f a) = true ∧ σ (f b) = true) := by
+  induction m with
+  | zero => simp [trueCount]
+  | succ m ih =>
+    rw [trueCount_range_succ]
+    constructor
+    · intro h a b hab hb
+      by_cases hbm : b = m
+      · subst hbm
+        rintro ⟨ha, hb'⟩
+        simp only [hb', if_true] at h
+        have h0 : trueCount ((List.range b).map f) σ = 0 := by omega
+        have := (trueCount_range_zero_iff b f σ).mp h0 a hab
+        rw [this] at ha; cases ha
+      · exact ih.mp (by omega) a b hab (by omega)
+    · intro h
+      have h1 := ih.mpr (fun a b hab hb => h a b hab (by omega))
+      cases hσ : σ (f m) with
+      | false => simp; exact h1
+      | true =>
+        simp only [if_true]
+        have : trueCount ((List.range m).map f) σ = 0 := by
+          rw [trueCount_range_zero_iff]
+          intro a ha
+          cases hσa : σ (f a) with
+          | false => rfl
+          | true => exact absurd ⟨hσa, hσ⟩ (h a m ha (by omega))
+        omega
+
+theorem trueCount_map_eq_filter (m : Nat) (f : Nat → Nat) (σ : Asg) :
+    trueCount ((List.range m).map f) σ = ((List.range m).filter (fun a => σ (f a))).length := by
+  simp [trueCount, List.filter_map, Function.comp_def]
+
+theorem no_two {m : Nat} {f : Nat → Nat} {σ : Asg} (h : trueCount ((List.range m).map f) σ ≤ 1)
+    {a b : Nat} (ha : a < m) (hb : b < m) (hab : a ≠ b) (qa : σ (f a) = true) (qb : σ (f b) = true) : False := by
+  rcases Nat.lt_or_gt_of_ne hab with h' | h'
+  · exact (trueCount_range_le_one m f σ).mp h a b h' hb ⟨qa, qb⟩
+  · exact (trueCount_range_le_one m f σ).mp h b a h' ha ⟨qb, qa⟩
+
+
+/-- exactly one of `f 0 … f (m-1)` is true iff some position is and no two are -/
+theorem trueCount_range_eq_one (m : Nat) (f : Nat → Nat) (σ : Asg) :
+    trueCount ((List.range m).map f) σ = 1 ↔
+      (∃ a, a < m ∧ σ (f a) = true) ∧ ∀ a b, a < b → b < m → ¬ (σ (f a) = true ∧ σ (f b) = true) := by
+  rw [← trueCount_range_le_one]
+  have hz := trueCount_range_zero_iff m f σ
+  constructor
+  · intro h
+    refine ⟨?_, by omega⟩
+    apply Classical.byContradiction
+    intro hne
+    have : trueCount ((List.range m).map f) σ = 0 := hz.mpr (fun a ha => by
+      cases hσ : σ (f a) with
+      | false => rfl
+      | true => exact absurd ⟨a, ha, hσ⟩ hne)
+    omega
+  · rintro ⟨⟨a, ha, hσ⟩, hle⟩
+    have : trueCount ((List.range m).map f) σ ≠ 0 := by
+      intro h0
+      have := hz.mp h0 a ha
+      rw [this] at hσ; cases hσ
+    omega
+
+theorem trueCount_map (vs : List Nat) (f : Nat → Nat) (σ : Asg) :
+    trueCount (vs.map f) σ = (vs.filter (fun v => σ (f v))).length := by
+  simp [trueCount, List.filter_map, Function.comp_def]
+
 end Rsbdd
